@@ -188,6 +188,19 @@ def mutate_sd(sd, how, rng):
         victims = [k for k in keys if json.loads(k)[:3] == prefix]
         for k in victims:
             sd["state"][p].pop(k)
+    elif how in ("drop_module", "drop_block"):   # everything one block's module holds / everything of one block (seed C09-R4B)
+        import json
+        p = rng.choice(sorted(sd["state"]))
+        keys = sorted(sd["state"][p])
+        if not keys:
+            return None
+        depth = 2 if how == "drop_module" else 1
+        prefix = json.loads(rng.choice(keys))[:depth]
+        victims = [k for k in keys if json.loads(k)[:depth] == prefix]
+        if len(victims) == len(keys) and how == "drop_block":
+            pass        # the parameter keeps an empty entry dict: the spec's LoadOutcome decides
+        for k in victims:
+            sd["state"][p].pop(k)
     elif how == "unknown_param":
         sd["state"]["no.such.param"] = dict(next(iter(sd["state"].values())))
     elif how == "drop_group":
@@ -296,7 +309,7 @@ def run(ctx):
                           {"kind": "resume_ddp"}, {"ddp_task": t})
     ctx.add("ddp_layout_resume_runs", len(dtasks))
     # O: negative table
-    hows = ["drop_entry", "drop_attribute", "unknown_param", "drop_group", "extra_group", "rename_group"]
+    hows = ["drop_entry", "drop_attribute", "drop_module", "drop_block", "unknown_param", "drop_group", "extra_group", "rename_group"]
     ntasks = []
     for i in range(20 if quick else 200):
         d = family.make_draw(rng, make_groups(rng))
